@@ -66,8 +66,9 @@ class Budget(object):
         # scales the nominal budgets so that the whole suite stays within a few hours
         self.seconds = seconds * float(os.environ.get("VERIF_BUDGET_SCALE") or 1.0)
 
-    def over(self):
-        return time.time() - self.t0 > self.seconds
+    def over(self, fraction=1.0):
+        """fraction < 1: an earlier leg's share, so that later legs of the same shard are always reached"""
+        return time.time() - self.t0 > self.seconds * fraction
 
 
 def standard_plan(tier, seed, interps, mode, quick_shape=None, thorough_shape=None):
